@@ -67,7 +67,7 @@ func c14Cfg() *DeclCfg {
 		Kinds: []string{"bool", "int", "int16", "uint", "uint8", "float64", "string", "string", "duration", "[]int", "[]string", "map[string]int", "map[string]string",
 			"map[int]string", "*int", "*string", "um", "func(string)", "func()", "[]bool", "vv"},
 		MinOpts: 1, MaxOpts: 4, MaxGroups: 2, MaxSub: 1, MaxCmds: 2, MaxDepth: 2, Exec: true,
-		Hidden: true, NoIni: true, IniName: true, Namespaces: true, Choices: true, Base: false,
+		Hidden: true, NoIni: true, IniName: true, Namespaces: true, Choices: true, Base: false, CapCmds: true, DupFields: true,
 		ParserOpts: []uint{0, optHelpFlag, optIgnoreUnknown, optIgnoreUnknown | optHelpFlag, optHelpFlag | optPassDoubleDash | optPrintErrors},
 	}
 }
@@ -237,6 +237,20 @@ func genC14Structured(r *Rng, sc *Scenario) {
 			}
 		}
 		key := r.Pick(iniKeySpellings(oi))
+		if key == oi.O.Field {
+			// a Go field name shared with another option only names this one
+			// unambiguously inside its own group's section
+			shared := 0
+			for _, x := range ois {
+				if x.O.Field == key {
+					shared++
+				}
+			}
+			if shared > 1 {
+				sect = oi.Section
+				global = false
+			}
+		}
 		if oi.O.IniName != "" && key == oi.O.IniName && r.Bool() {
 			key = strings.ToUpper(key) // ini-name is matched case-insensitively
 		}
@@ -374,7 +388,7 @@ func genC14Structured(r *Rng, sc *Scenario) {
 
 func genC14Fault(r *Rng, d *DeclSpec, p *C14Payload) *C14Fault {
 	f := &C14Fault{At: r.Range(0, len(p.Entries))}
-	kinds := []string{"malformed-header", "empty-section", "no-equals", "bad-quote", "unknown-option", "bad-value", "unknown-section", "unknown-section-empty", "bad-map-quote", "empty-key", "bad-choice", "func-with-arg", "unmarshal-fails"}
+	kinds := []string{"malformed-header", "empty-section", "no-equals", "bad-quote", "unknown-option", "bad-value", "unknown-section", "unknown-section-empty", "bad-map-quote", "empty-key", "bad-choice", "func-with-arg", "unmarshal-fails", "foreign-key"}
 	f.Kind = r.Pick(kinds)
 	prev := func() *C14Entry {
 		if f.At == 0 || len(p.NoisyOrder) == 0 {
@@ -393,6 +407,27 @@ func genC14Fault(r *Rng, d *DeclSpec, p *C14Payload) *C14Fault {
 		f.Text = r.Pick([]string{"k = \"abc", "k = \"a\\qb\"", "k = \"abc\" tail", "k = \"", "k = \"a\"b\"", "k=\"\\", "k = \"\\x\"", "k = \"abc\\\""})
 	case "unknown-option":
 		f.Text = r.Pick([]string{"nosuchkeyzz = 1", "NoSuchKeyZZ=", " zz9 = x y"})
+	case "foreign-key":
+		// a key that names an option of ANOTHER section (addressed earlier in the
+		// file) is unknown in the section where it now appears
+		e := prev()
+		ok := false
+		if e != nil && e.Section != "" {
+			for _, idx := range p.NoisyOrder[:f.At] {
+				o := p.Entries[idx]
+				if o.Section != e.Section && o.Section != "" && strings.ToLower(o.Section) != strings.ToLower(e.Section) && o.Opt != e.Opt && unrelatedGroups(o.Opt, e.Opt) {
+					f.Text, ok = o.Key+" = "+o.valueText(), true
+				}
+			}
+		}
+		if ok {
+			// the other section's key must not also name an option reachable from this section
+			f.Kind = "unknown-option"
+			f.More = ""
+		} else {
+			f.Kind = "unknown-option"
+			f.Text = "nosuchkeyzz = 1"
+		}
 	case "empty-key":
 		// a line that names no option at all
 		f.Text = r.Pick([]string{"= 1", "=", " = x", "=true", "\t=\tk:v"})
@@ -464,6 +499,21 @@ func genC14Fault(r *Rng, d *DeclSpec, p *C14Payload) *C14Fault {
 		}
 	}
 	return f
+}
+
+// unrelatedGroups: the two option paths ("cmd|group/sub|Field") lie in different
+// commands or under different top-level groups, so a section addressing one
+// cannot reach the other (a section reaches its group and everything nested in it).
+func unrelatedGroups(a, b string) bool {
+	pa, pb := strings.SplitN(a, "|", 3), strings.SplitN(b, "|", 3)
+	if len(pa) < 3 || len(pb) < 3 {
+		return false
+	}
+	if pa[0] != pb[0] {
+		return true
+	}
+	ta, tb := strings.SplitN(pa[1], "/", 2)[0], strings.SplitN(pb[1], "/", 2)[0]
+	return ta != "" && tb != "" && ta != tb
 }
 
 func genChunkPlan(r *Rng, n int) ([]simrt.ReadStep, int) {
@@ -559,7 +609,8 @@ func (p *C14Payload) currentText() string {
 	return ""
 }
 
-var arbAlphabet = []string{"[", "]", "=", "\"", "\\", ":", "\r", "\n", "\n", "\x00", "\xff", "\xc3", ";", "#", " ", "\t", "a", "b", "1", "-", ".", "é"}
+var arbAlphabet = []string{"[", "]", "=", "\"", "\\", ":", "\r", "\n", "\n", "\x00", "\xff", "\xc3", ";", "#", " ", "\t", "a", "b", "1", "-", ".", "é",
+	"\xef", "\xef\xbb", "\xef\xbb\xbf", "\xfe\xff", "\x80", "\xbf", "\xe2\x80\xa8", "\u00a0", "\x1a", "\x0b", "\x0c", "\x85", "\x7f"}
 
 func genArbitraryIni(r *Rng, d *DeclSpec) string {
 	var b strings.Builder
@@ -582,6 +633,11 @@ func genArbitraryIni(r *Rng, d *DeclSpec) string {
 			}
 		case 3:
 			b.WriteString(strings.Repeat(r.Pick(arbAlphabet), r.Range(1, 5000)))
+		case 4:
+			// any byte value at all
+			for i := r.Range(1, 6); i > 0; i-- {
+				b.WriteByte(byte(r.Intn(256)))
+			}
 		default:
 			for i := r.Range(1, 12); i > 0; i-- {
 				b.WriteString(r.Pick(arbAlphabet))
@@ -764,6 +820,18 @@ func (propC14) Judge(sc *Scenario) *Verdict {
 	switch p.Source {
 	case "structured":
 		ignore := sc.Decl.Options&optIgnoreUnknown != 0
+		declared := map[string]bool{}
+		for _, oi := range optInfos(sc.Decl) {
+			declared[oi.Path] = true
+		}
+		for _, e := range p.Entries {
+			if !declared[e.Opt] {
+				v.NotJudged = "an entry addresses an option that is not declared"
+			}
+		}
+		if v.NotJudged != "" {
+			break
+		}
 		canon := p.renderCanonical()
 		noisy, _ := p.renderNoisy(false)
 		faulty, fline := p.renderNoisy(true)
